@@ -53,15 +53,22 @@ def register(op):
 
     @op("c02_orbit")
     def _(a):
-        rots, order, mode = a           # rots: list of [seq, struct]; order: indices; mode: per presentation None|"same"|"other"
+        rots, order, mode = a[:3]       # rots: list of [seq, struct]; order: indices; mode: per presentation None|"same"|"other"
+        use_sub = a[3] if len(a) > 3 else False
         fresh()
+        class SubC(bc.ComplexS):
+            pass
+        if use_sub:
+            # a live base-class object of the same complex exists before anything is presented to the subclass
+            base_obj = bc.ComplexS(doms(rots[0][0]), list(rots[0][1]), name="B")
+        K = SubC if use_sub else bc.ComplexS
         first, out = None, []
         keep = []
         for k, (i, m) in enumerate(zip(order, mode)):
             seq, struct = rots[i]
             name = None if m is None else ("N" if m == "same" else f"other{k}")
             try:
-                c = bc.ComplexS(doms(seq), list(struct), name=name) if name else bc.ComplexS(doms(seq), list(struct))
+                c = K(doms(seq), list(struct), name=name) if name else K(doms(seq), list(struct))
                 kind = "object"
             except SingletonError as e:
                 c = e.existing
@@ -73,6 +80,8 @@ def register(op):
                         (hash(c) == hash(first)) if c is not None else None, (c == first) if c is not None else None,
                         c.turns if c is not None else None, c.name if c is not None else None])
         del keep, c, first
+        base_obj = None
+        clear_singletons(SubC)
         fresh()
         return out
 
@@ -252,11 +261,23 @@ def register_c12(op):
 
     @op("c12_roundtrip")
     def _(a):
-        """every rotation of the complex: write `Y = <kernel_string>`, read it back"""
+        """every rotation of the complex: write `Y = <kernel_string>`, read it back (as a line, and through a file that
+        is rewritten for every rotation), also while a strand named like one of its domains is alive"""
+        import os, tempfile
         seq, struct = a
         fresh()
         ds = [dom(x) if x != "+" else "+" for x in seq]
         c = bc.ComplexS(ds, list(struct), name="Y")
+        # a composite domain (strand) that happens to carry the name of one of the complex's domains
+        first = next((x for x in seq if x != "+" and not x.endswith("*")), None)
+        keepalive = None
+        if first is not None and len([x for x in ds if x != "+"]) >= 2:
+            others = [x for x in ds if x != "+"][:2]
+            try:
+                keepalive = bc.StrandS(others, name=first)
+            except Exception:
+                keepalive = None
+        path = os.path.join(tempfile.gettempdir(), "verif_c12_%d.pil" % os.getpid())
         out = []
         n = c.size
         for t in range(n):
@@ -264,11 +285,19 @@ def register_c12(op):
             want = [[str(x) for x in c.sequence], list(c.structure)]
             back = objectio.read_pil_line("Y = " + c.kernel_string)
             got = [[str(x) for x in back.sequence], list(back.structure)]
-            # the reader hands back the singleton in ITS current rotation: compare the description it
-            # derived by reading the text again through the parser
             [line] = parse_pil_string("Y = " + c.kernel_string + "\n")
             r = objectio.resolve_kernel_loops(line[2])
-            out.append([back is c, [list(r[0]), list(r[1])] == want, got == want])
-        del c, ds, back
+            with open(path, "w") as f:
+                f.write("Y = " + c.kernel_string + "\n")
+            viafile = objectio.read_pil(path, is_file=True)["complexes"]
+            fobj = viafile.get("Y")
+            fgot = [[str(x) for x in fobj.sequence], list(fobj.structure)] if fobj is not None else None
+            out.append([back is c, [list(r[0]), list(r[1])] == want, got == want, fobj is c and fgot == want])
+            del viafile, fobj
+        try:
+            os.remove(path)
+        except OSError:
+            pass
+        del c, ds, back, keepalive
         fresh()
         return out
